@@ -243,6 +243,9 @@ func (sf *SpecFile) resolveLikes() error {
 			}
 			c.Uses = append(append([]SCall(nil), t.Uses...), c.Uses...)
 			c.DefaultInv = append(append([]Clause(nil), t.DefaultInv...), c.DefaultInv...)
+			if c.TracedArg == nil {
+				c.TracedArg, c.TracedRes = t.TracedArg, t.TracedRes
+			}
 		}
 		done[c.Key] = true
 		return nil
@@ -303,6 +306,20 @@ func (sf *SpecFile) merge(sub *SpecFile, prefix string) error {
 }
 
 // typeID gives a stable small integer for a Go type (by its canonical string).
+var funcIDs = map[string]int{}
+
+// funcID: a stable small integer per function key (callee identity in activation traces).
+func funcID(key string) int {
+	typeIDMu.Lock()
+	defer typeIDMu.Unlock()
+	if id, ok := funcIDs[key]; ok {
+		return id
+	}
+	id := len(funcIDs) + 1
+	funcIDs[key] = id
+	return id
+}
+
 var typeIDMu sync.Mutex
 
 func (P *Prog) typeID(t types.Type) int {
